@@ -14,12 +14,13 @@ from .model_driver import PALETTES, ModelDriver
 CONSTS = {"Bug": "none"}
 SUBST = {"RxSeq": "RxSeq8", "MetSeq": "MetSeq4", "GeneSeq": "GeneSeq4", "GrpSeq": "GrpSeq1"}
 
-PROFILE = {"C01": ["edit"], "C02": ["edit"], "C03": ["ctx"], "C07": ["ko"], "C12": ["copy"],
+# "full:N" = every sequence of N operations of the small context vocabulary (exhaustive), closed by exits
+PROFILE = {"C01": ["edit"], "C02": ["edit"], "C03": ["full", "fullbounds", "ctx"], "C07": ["ko"], "C12": ["copy"],
            "C13": ["analyze"], "C10": ["io"], "C11": ["io"]}
 TIERS = {
-    "quick": {"edit": (700, 14), "ctx": (700, 16), "ko": (700, 12), "copy": (600, 14), "analyze": (220, 9),
+    "quick": {"full": (0, 2), "fullbounds": (0, 3), "edit": (700, 14), "ctx": (300, 16), "ko": (700, 12), "copy": (600, 14), "analyze": (220, 9),
               "io": (600, 10), "palettes": 2},
-    "thorough": {"edit": (20000, 18), "ctx": (20000, 20), "ko": (8000, 14), "copy": (15000, 16), "analyze": (2500, 10),
+    "thorough": {"full": (0, 3), "fullbounds": (0, 4), "edit": (20000, 18), "ctx": (20000, 20), "ko": (8000, 14), "copy": (15000, 16), "analyze": (2500, 10),
                  "io": (9000, 12), "palettes": 3},
 }
 KO_ACTIONS = {"GeneKnockOut", "KnockOutModelGenes", "RxnKnockOut"}
@@ -72,9 +73,11 @@ def attribute(v):
     return props
 
 
-def tlc_walks(wd, rep, profile, nwalks, depth, sd, emit=True, bug="none", expect_violation=False):
-    consts = dict(CONSTS, Profile=profile, Depth=depth, NWalks=nwalks, Seed=sd % 60000, Emit=emit, Bug=bug)
-    cfgp = C.write_cfg(os.path.join(wd, "walk_%s_%s.cfg" % (profile, bug)), consts, SUBST,
+def tlc_walks(wd, rep, profile, nwalks, depth, sd, emit=True, bug="none", expect_violation=False, mode="walk",
+              fullset="all"):
+    consts = dict(CONSTS, Profile=profile, Depth=depth, NWalks=nwalks, Seed=sd % 60000, Emit=emit, Bug=bug, Mode=mode,
+                  FullSet=fullset)
+    cfgp = C.write_cfg(os.path.join(wd, "%s_%s_%s_%s.cfg" % (mode, profile, bug, fullset)), consts, SUBST,
                        invariants=["InvWellFormed", "InvKOOrder"], constraints=["Constr"],
                        extra=["ASSUME_PLACEHOLDER"] if False else [])
     return C.run_tlc("CobraModel", cfgp, wd, timeout=3000, expect_violation=expect_violation)
@@ -94,12 +97,15 @@ def _drive_one(item, progress):
 
 
 def drive_all(behs, palettes, wd, tag):
-    """Every behaviour runs under the plain palette and under one other palette."""
+    """Every behaviour runs under the plain palette and under one other palette (the exhaustive family:
+    alternating palettes)."""
     items, meta = [], {}
     tid = 0
     for pi, pal in enumerate(palettes):
         for bi, beh in enumerate(behs):
             if pi > 0 and len(palettes) > 2 and (bi % (len(palettes) - 1)) + 1 != pi:
+                continue
+            if tag.startswith("full") and bi % len(palettes) != pi:
                 continue
             tid += 1
             items.append((pal, tid, beh))
@@ -164,7 +170,13 @@ def run(prop, tier, replay=None):
     attributed_elsewhere = 0
     for profile in PROFILE[prop]:
         nwalks, depth = T[profile]
-        res = tlc_walks(wd, rep, profile, nwalks, depth, sd)
+        if profile in ("full", "fullbounds"):
+            res = tlc_walks(wd, rep, "ctx", 1, depth, sd, mode="full", fullset="all" if profile == "full" else "bounds")
+            for b in res["printed"]:        # close every context that is still open
+                opened = sum(1 for o in b["ops"] if o["a"] == "Enter") - sum(1 for o in b["ops"] if o["a"] == "Exit")
+                b["ops"] = b["ops"] + [{"a": "Exit", "s": 1}] * max(1, opened)
+        else:
+            res = tlc_walks(wd, rep, profile, nwalks, depth, sd)
         rep.add_design(res)
         behs = res["printed"]
         if len(behs) < nwalks * 0.9:
@@ -201,6 +213,7 @@ def run(prop, tier, replay=None):
             v2["kind"] = v["op"].get("kind", "")
             v2["fieldnames"] = sorted({f.split(":", 1)[1] for f in v["fields"] if ":" in f} | {f for f in v["fields"] if ":" not in f})
             v2["invnames"] = sorted({f.split(":", 1)[1] for f in v["invs"]})
+            v2["inexact_kinds"] = sorted({t.split(":")[-1] for t in v.get("inexact", [])})
             short = {"tid": t["tid"], "palette": pal, "events": t["events"][:v["l"]]}
             rep.verdict(v2, {"engine": "model", "palette": pal, "behaviour": {"ops": behs[bi]["ops"][:v["l"]]},
                              "trace_tail": short["events"][-2:]})
@@ -262,7 +275,7 @@ def run(prop, tier, replay=None):
         "distinct_pre_state_action_pairs": len(nontrivial),
         "rule": "a case is a distinct (operation with arguments, stoichiometry of the state it was applied to) pair "
                 "that was not skipped as out of scope",
-        "exhaustive": False,
+        "exhaustive": "full" in PROFILE[prop],     # the full* families are complete enumerations; walks are samples
     })
 
 
@@ -278,7 +291,8 @@ def _replay(rep, wd, payload):
         v2 = dict(v)
         v2.update(spec="CobraModel", palette=pal["name"], fmt=v["op"].get("fmt", ""), kind=v["op"].get("kind", ""),
                   fieldnames=sorted({f.split(":", 1)[1] for f in v["fields"] if ":" in f} | {f for f in v["fields"] if ":" not in f}),
-                  invnames=sorted({f.split(":", 1)[1] for f in v["invs"]}))
+                  invnames=sorted({f.split(":", 1)[1] for f in v["invs"]}),
+                  inexact_kinds=sorted({t.split(":")[-1] for t in v.get("inexact", [])}))
         rep.verdict(v2, {"engine": "model", "palette": pal["name"], "behaviour": r["behaviour"]})
     rep.coverage["states"] = rep.coverage["transitions"] = distinct
     rep.coverage["samples"] = [{"ops": r["behaviour"]["ops"]}]
